@@ -497,3 +497,64 @@ Proof.
   eapply decides_iff; [|apply ma_conflicts_decides; assumption].
   split; apply byte_conflict_sym.
 Qed.
+
+(* ---------------------------------------------------------------- statements exported by props/C04.v *)
+Lemma rangeset_intersects_spec_lemma a b :
+  rs_wf a -> rs_wf b ->
+  (rs_intersects a b = Some true <->
+   exists ra rb, In ra a /\ In rb b /\ Z.max (fst ra) (fst rb) < Z.min (snd ra) (snd rb)) /\
+  rs_intersects a b <> None.
+Proof.
+  intros Ha Hb. pose proof (rs_intersects_decides a Ha b Hb) as H.
+  split; [exact (decides_true _ _ H) | exact (decides_some _ _ H)].
+Qed.
+
+Lemma rangeset_or_invariant_lemma a b :
+  rs_wf a -> rs_wf b -> rs_wf (rs_or a b) /\ forall r, In r (rs_or a b) <-> In r a \/ In r b.
+Proof.
+  intros Ha Hb. split; [apply rs_or_wf; apply rs_wf_nonempty; assumption | intros r; apply rs_or_in].
+Qed.
+
+Lemma conflicts_spec_lemma x y :
+  ma_wf x -> ma_wf y ->
+  (ma_conflicts x y = Some true <-> byte_conflict x y) /\
+  ma_conflicts x y <> None /\
+  ma_conflicts x y = ma_conflicts y x.
+Proof.
+  intros Hx Hy. pose proof (ma_conflicts_decides x y Hx Hy) as H.
+  split; [exact (decides_true _ _ H)|]. split; [exact (decides_some _ _ H) | apply ma_conflicts_sym_lemma; assumption].
+Qed.
+
+Lemma access_set_add_lemma x m w :
+  ma_wf x -> mrs_wf m ->
+  ma_wf (ma_add x m w) /\
+  (forall k a, reads (ma_add x m w) k a <-> reads x k a \/ (w = false /\ mrs_has m k a)) /\
+  (forall k a, writes (ma_add x m w) k a <-> writes x k a \/ (w = true /\ mrs_has m k a)).
+Proof.
+  intros Hx Hm. split; [apply ma_add_wf; assumption|].
+  split; intros k a; [apply ma_add_reads | apply ma_add_writes].
+Qed.
+
+(* the hypotheses are satisfiable by non-trivial instances *)
+Example rs_example :
+  rs_wf (rs_or [(0, 4); (10, 12)] [(3, 6)]) /\
+  rs_intersects (rs_or [(0, 4); (10, 12)] [(3, 6)]) [(5, 10)] = Some true /\
+  rs_intersects (rs_or [(0, 4); (10, 12)] [(3, 6)]) [(6, 10); (12, 20)] = Some false.
+Proof.
+  split; [apply rs_or_wf; repeat constructor|]. split; vm_compute; reflexivity.
+Qed.
+
+Example ma_example :
+  let dma := ma_add (ma_add ma_empty [(0, [(0, 208)])] false) [(1, [(1000, 1208)])] true in
+  let conv := ma_add (ma_add ma_empty [(1, [(1100, 1200)])] false) [(1, [(0, 500)]); (259, [(0, 16384)])] true in
+  ma_wf dma /\ ma_wf conv /\ ma_conflicts dma conv = Some true /\ ma_conflicts conv dma = Some true.
+Proof.
+  assert (W : forall k s e, s < e -> mrs_wf [(k, [(s, e)])]).
+  { intros k s e H. split; [repeat constructor; intros []|]. constructor; [|constructor].
+    split; [repeat constructor | constructor; [exact H | constructor]]. }
+  cbv zeta. split; [|split; [|split; vm_compute; reflexivity]].
+  - apply ma_add_wf; [apply ma_add_wf; [apply ma_empty_wf|]|]; apply W; lia.
+  - apply ma_add_wf; [apply ma_add_wf; [apply ma_empty_wf | apply W; lia]|].
+    split; [repeat constructor; cbn; intuition discriminate|].
+    repeat constructor; cbn; lia.
+Qed.
